@@ -8,7 +8,8 @@
      current metadata file is defined, time travel is unaffected by later actions.
 (R)  every reachable directory is emitted with, per open target (current, each snapshot ever
      created, one unknown id), the SET of outcomes the property allows; the harness writes the
-     directory for real (Parquet, Avro manifests / manifest lists, metadata JSON, version-hint.text)
+     directory for real (Parquet, Avro manifests / manifest lists with the optional summary counts
+     absent / truthful / null, metadata JSON, version-hint.text)
      and opens it with ExecutionContext::register_iceberg + SELECT * / SELECT COUNT(*).
 
 contract (VIOLATION): wrong row bag / wrong COUNT(*); refusal where rows are demanded; rows where
@@ -152,6 +153,11 @@ def account(ctx, recs, stats):
                 stats["status"][e["status"]] += 1
         for s in r["snapshots"]:
             stats["uri_mlist"][s["uri"]] += 1
+            forms = {c["c"] for c in s["counts"]}
+            for c in s["counts"]:
+                stats["count_form"][c["c"]] += 1
+            if forms == {1, 2}:
+                stats["count_mixed_lists"] += 1
         obs = {o["target"]: o for o in r["obs"]}
         for e in r["opens"]:
             o = obs[e["target"]]
@@ -180,6 +186,11 @@ def vacuity(ctx, stats, need_tie):
     for w in ("rows", "unknown_snapshot", "no_live_data_file", "delete_file", "non_parquet", "remote_uri"):
         if stats["expected"][w] == 0:
             missing.append(f"expected outcome {w}")
+    for f in range(3):
+        if stats["count_form"][f] == 0:
+            missing.append(f"manifest-list summary counts form {f} (0 absent, 1 truthful, 2 null)")
+    if stats["count_mixed_lists"] == 0:
+        missing.append("manifest list mixing truthful and null summary counts")
     if stats["hint"]["stale"] == 0:
         missing.append("stale version-hint")
     if need_tie and stats["tied_metadata"] == 0:
@@ -194,7 +205,8 @@ def new_stats():
     return {"actions": collections.Counter(), "scheme": collections.Counter(), "hint": collections.Counter(),
             "tied_metadata": 0, "uri_manifest": collections.Counter(), "uri_data": collections.Counter(),
             "uri_mlist": collections.Counter(), "status": collections.Counter(), "observed": collections.Counter(),
-            "expected": collections.Counter(), "refusal_class": collections.Counter(), "targets_with_choice": 0}
+            "expected": collections.Counter(), "refusal_class": collections.Counter(), "targets_with_choice": 0,
+            "count_form": collections.Counter(), "count_mixed_lists": 0}
 
 
 def tlc_cases(ctx, cfg, label, **kw):
@@ -277,6 +289,7 @@ def run(ctx):
         "Parquet/Avro/metadata-JSON writers of the harness are trusted to materialise the model directory (arrow, parquet, apache-avro crates)",
         "equal last-updated-ms without a hint: any of the newest metadata files may be used (the property does not pin the tie-break)",
         "never-written table, and DELETED entries naming a delete file / non-Parquet file / remote URI: refusal or the exact live rows are both accepted",
+        "manifest-list summary counts are advisory: absent, truthful and null (unknown) forms are written, never untruthful non-null ones",
         "a file with both a live and a DELETED entry inside one snapshot is not a valid history and is not generated",
         "error class/text and the stage at which a refusal surfaces are fidelity, recorded under stats.refusal_class",
     ]
@@ -339,8 +352,16 @@ def sim_reader(case, target, mut=None):
     if sn["uri"] == 4 and not remote_ok:
         return ("refuse",)
     files = set()
+    cform = {c["m"]: c["c"] for c in sn.get("counts", [])}
     for m in sn["mlist"]:
         man = mans[m - 1]
+        if mut in ("skip_zero_count_manifests", "skip_zero_count_manifests_v1names") and cform.get(m, 1) != 0:
+            # reads added+existing summary counts, null as 0, and skips the manifest when the sum is 0
+            v1_table = case["variant"] % 2 == 1 and not any(e["content"] != 0 for mm in mans for e in mm["entries"])
+            if v1_table == (mut == "skip_zero_count_manifests_v1names"):
+                live_n = sum(1 for e in man["entries"] if e["status"] != 2)
+                if cform[m] == 2 or live_n == 0:
+                    continue
         if man["uri"] == 4 and not remote_ok:
             return ("refuse",)
         for e in man["entries"]:
@@ -363,7 +384,8 @@ def sim_reader(case, target, mut=None):
 
 
 MUTANTS = ["include_deleted", "meta_by_name", "ignore_hint", "unknown_falls_back", "accept_delete_files", "s3_relative",
-           "ignore_format", "current_is_newest_snapshot", "skip_existing", "scan_data_dir"]
+           "ignore_format", "current_is_newest_snapshot", "skip_existing", "scan_data_dir",
+           "skip_zero_count_manifests", "skip_zero_count_manifests_v1names"]
 
 
 def as_obs(t, r):
